@@ -11,7 +11,13 @@ cd /repo || exit 2
 if [ "$MODE" = full ]; then
   /venv/bin/python -m pytest -ra -q -p no:cacheprovider --timeout=900 --continue-on-collection-errors --junitxml="$OUT/all.xml" >"$OUT/log" 2>&1
 else
-  find tests -name "test_*.py" | sort | xargs -P 14 -I{} sh -c '/venv/bin/python -m pytest -ra -q -p no:cacheprovider --timeout=900 --continue-on-collection-errors --junitxml="'"$OUT"'/$(echo {} | tr / _).xml" {} >"'"$OUT"'/$(echo {} | tr / _).log" 2>&1'
+  # one pytest process per top-level test directory (files inside a directory keep their order:
+  # some test modules rely on backends registered by earlier modules of the same directory)
+  for g in tests/core tests/strategies tests/polars tests/pyspark tests/io tests/geopandas tests/modin "tests/dask tests/fastapi tests/hypotheses tests/mypy tests/test_inspection_utils.py"; do
+    n=$(echo "$g" | tr '/ ' '__')
+    /venv/bin/python -m pytest -ra -q -p no:cacheprovider --timeout=900 --continue-on-collection-errors --junitxml="$OUT/$n.xml" $g >"$OUT/$n.log" 2>&1 &
+  done
+  wait
 fi
 /venv/bin/python - "$OUT" <<'PY'
 import glob, json, sys, xml.etree.ElementTree as ET
